@@ -366,6 +366,14 @@ theorem structInv_handle (s : Sys) (self : Cid) (e : Env) (hi : StructInv s) : S
   split
   · split
     · exact hi
+    · refine structInv_sameS (sameS_deadLetter _ _) ?_
+      apply structInv_upd s self (fun x => if x.state = .killing then { x with restarting := none } else x) _ _ hi
+      · intro hk; split at hk <;> split <;> first | exact hi.1 self hk | simp_all
+      · intro hr; split at hr
+        · simp at hr
+        · split
+          · simp_all
+          · exact hi.2 self hr
     · exact structInv_sameS (sameS_deadLetter _ _) hi
   · split
     · exact structInv_execRecover _ _ _ _ _ hi
@@ -379,15 +387,19 @@ theorem structInv_handle (s : Sys) (self : Cid) (e : Env) (hi : StructInv s) : S
           · intro hr
             -- running with a restart flag is impossible
             exact absurd hrun (hi.2 self hr)
-        · exact hi
+        · apply structInv_upd s self (fun x => { x with restarting := none }) _ _ hi
+          · intro hk; exact hi.1 self hk
+          · intro hr; simp at hr
     · exact structInv_onKilled _ _ _ _ _ hi
     · exact structInv_sameS (sameS_onSupervise _ _ _) hi
     · exact structInv_sameS (sameS_upd s self _ (fun _ => rfl)) hi
     · exact structInv_sameS (sameS_upd s self _ (fun _ => rfl)) hi
-    · apply structInv_doKill
-      apply structInv_upd s self (fun x => { x with state := .killing, restarting := some _ }) _ _ hi
-      · intro hk; simp at hk
-      · intro _; simp
+    · split
+      · apply structInv_doKill
+        apply structInv_upd s self (fun x => { x with state := .killing, restarting := some _ }) _ _ hi
+        · intro hk; simp at hk
+        · intro _; simp
+      · exact hi
     · repeat' split
       all_goals first
         | exact hi
